@@ -132,13 +132,23 @@ var OutsideAtoms = []OutsideAtom{
 }
 
 // HostPositions are the places a statement atom is inserted at.
-var HostPositions = []string{"first", "middle", "last", "inif", "inloop", "inelse", "inclosure"}
+var HostPositions = []string{"first", "middle", "last", "inif", "inloop", "inelse", "inclosure", "tailthen", "inrange", "ifinloop", "elseifarm", "loopinloop", "aftereturnif"}
 
 const hostPrelude = `var _ = sync.NewCond
 
 func five(v uint64) (uint64, uint64, uint64, uint64, uint64) {
 	return v, 1, 2, 3, 4
 }
+
+func four(v uint64) (uint64, uint64, uint64, uint64) {
+	return v + 1, v % 3, 3, 4
+}
+
+func two(v uint64) (uint64, uint64) {
+	return v + 1, v * 2
+}
+
+var _ = machine.UInt64Get
 
 type H struct {
 	f uint64
@@ -158,14 +168,17 @@ func sideEffect0() {
 
 // OutsidePackage builds the package for one atom: one host function per position and
 // closed cases for a few arguments.
-func OutsidePackage(a OutsideAtom) *Package {
+func OutsidePackage(a OutsideAtom) *Package { return AtomPackage("o_", a) }
+
+// AtomPackage builds the host package of one atom; prefix distinguishes the catalogue.
+func AtomPackage(prefix string, a OutsideAtom) *Package {
 	var b strings.Builder
-	name := "o_" + a.ID
-	fmt.Fprintf(&b, "package %s\n\nimport \"sync\"\n\n", name)
+	name := prefix + a.ID
+	fmt.Fprintf(&b, "package %s\n\nimport (\n\t\"sync\"\n\n\t\"github.com/goose-lang/goose/machine\"\n)\n\n", name)
 	var cases []string
 	args := []uint64{0, 3, 8}
 	if a.Kind == "decl" {
-		b.WriteString("var _ = sync.NewCond\n\n" + a.Code + "\n\n")
+		b.WriteString("var _ = sync.NewCond\n\nvar _ = machine.UInt64Get\n\n" + a.Code + "\n\n")
 		for i, v := range args {
 			cn := fmt.Sprintf("case_%s_decl_%d", a.ID, i)
 			fmt.Fprintf(&b, "func %s() uint64 {\n\treturn %s_fn(%d)\n}\n\n", cn, a.ID, v)
@@ -175,7 +188,7 @@ func OutsidePackage(a OutsideAtom) *Package {
 	}
 	b.WriteString(hostPrelude)
 	for _, pos := range HostPositions {
-		if a.NoLoop && (pos == "inloop" || pos == "inclosure") {
+		if a.NoLoop && (pos == "inloop" || pos == "inclosure" || pos == "inrange" || pos == "ifinloop" || pos == "loopinloop") {
 			continue
 		}
 		fn := fmt.Sprintf("host_%s_%s", a.ID, pos)
@@ -197,6 +210,20 @@ func OutsidePackage(a OutsideAtom) *Package {
 			b.WriteString("\tif a > 5 {\n\t\tx = x + 3\n\t} else {\n" + indentBlock(code) + "\t}\n" + post)
 		case "inloop":
 			b.WriteString("\tfor r := uint64(0); r < 2; r++ {\n" + indentBlock(code) + "\t}\n" + post)
+		case "tailthen":
+			// inside an early-return then-branch (the remainder of the function follows)
+			b.WriteString(pre + "\tif a < 5 {\n" + indentBlock(code) + "\t\treturn x + 1000\n\t}\n" + post)
+		case "inrange":
+			b.WriteString(pre + "\tfor _, rv := range s {\n\t\tx = x + rv\n" + indentBlock(code) + "\t}\n" + post)
+		case "ifinloop":
+			b.WriteString("\tfor r := uint64(0); r < 3; r++ {\n\t\tif r == 1 {\n\t\t\tcontinue\n\t\t}\n" + indentBlock(code) + "\t\tif x > 1000000 {\n\t\t\tbreak\n\t\t}\n\t}\n" + post)
+		case "elseifarm":
+			b.WriteString("\tif a > 100 {\n\t\tx = x + 3\n\t} else if a < 5 {\n" + indentBlock(code) + "\t} else {\n\t\tx = x + 4\n\t}\n" + post)
+		case "loopinloop":
+			b.WriteString("\tfor r := uint64(0); r < 2; r++ {\n\t\tfor r2 := uint64(0); r2 < 2; r2++ {\n" + indentBlock(indentBlock(code)) + "\t\t}\n\t\tx = x + r\n\t}\n" + post)
+		case "aftereturnif":
+			// after an early return: the atom lives in the remainder that goose moves into the else branch
+			b.WriteString("\tif a == 3 {\n\t\treturn 77\n\t}\n" + pre + code + "\tif x == 12345 {\n\t\treturn 78\n\t}\n" + post)
 		case "inclosure":
 			b.WriteString("\tcl := func() uint64 {\n" + indentBlock(strings.ReplaceAll(code, "return x", "return x")) + "\t\treturn x\n\t}\n\tx = x + cl()\n" + post)
 		}
@@ -218,4 +245,49 @@ func indentBlock(code string) string {
 		}
 	}
 	return strings.Join(lines, "\n") + "\n"
+}
+
+// InsideAtoms are SUPPORTED statements; they go through the same hosts and positions as the
+// outside atoms (the statement × context × position matrix of C01).
+var InsideAtoms = []OutsideAtom{
+	{ID: "define", Kind: "stmt", Code: "t := x + y\n\tx = t * 2"},
+	{ID: "define_shadow", Kind: "stmt", Code: "y := x + 5\n\tx = y + 1"},
+	{ID: "var_init", Kind: "stmt", Code: "var t uint64 = x + 1\n\tt = t + y\n\tx = t"},
+	{ID: "var_zero", Kind: "stmt", Code: "var t uint64\n\tt = x\n\tx = t + 3"},
+	{ID: "assign", Kind: "stmt", Code: "x = x*3 + y"},
+	{ID: "opassign", Kind: "stmt", Code: "x += y\n\tx -= 1\n\tx |= 16\n\tx &= 0xFFFF\n\tx ^= 5"},
+	{ID: "opassign_u32", Kind: "stmt", Code: "w += 7\n\tw ^= 3\n\tx += uint64(w)"},
+	{ID: "opassign_u8", Kind: "stmt", Code: "z += 100\n\tz -= 3\n\tx += uint64(z)"},
+	{ID: "incdec", Kind: "stmt", Code: "x++\n\tx++\n\tx--"},
+	{ID: "field_store", Kind: "stmt", Code: "p.f = p.f + x\n\tp.g += 2\n\tp.b ^= 1"},
+	{ID: "deref_store", Kind: "stmt", Code: "*q = *q + x\n\t*q ^= 9"},
+	{ID: "elem_store", Kind: "stmt", Code: "s[3] = s[0] + x\n\ts[2] += 1"},
+	{ID: "map_ops", Kind: "stmt", Code: "m[2] = x\n\tm[1] += 3\n\tdelete(m, 9)\n\tv2, ok2 := m[2]\n\tif ok2 {\n\t\tx = x + v2\n\t}"},
+	{ID: "ifelse", Kind: "stmt", Code: "if x%2 == 0 {\n\t\tx = x + 10\n\t} else {\n\t\tx = x + 20\n\t}"},
+	{ID: "if_only", Kind: "stmt", Code: "if x > 3 && y != 4 {\n\t\tx = x - 1\n\t}"},
+	{ID: "elseif", Kind: "stmt", Code: "if x == 0 {\n\t\tx = 5\n\t} else if x < 4 {\n\t\tx = x * 9\n\t} else {\n\t\tx = x + 1\n\t}"},
+	{ID: "for3", Kind: "stmt", Code: "for i := uint64(0); i < 3; i++ {\n\t\tx = x + i\n\t}"},
+	{ID: "for3_break_continue", Kind: "stmt", Code: "for i := uint64(0); i < 6; i++ {\n\t\tif i == 1 {\n\t\t\tcontinue\n\t\t}\n\t\tif i == 4 {\n\t\t\tbreak\n\t\t}\n\t\tx = x + i\n\t}"},
+	{ID: "for_cond", Kind: "stmt", Code: "var c uint64 = 0\n\tfor c < 3 {\n\t\tc = c + 1\n\t\tx = x + c\n\t}"},
+	{ID: "for_inf", Kind: "stmt", Code: "var c uint64 = 0\n\tfor {\n\t\tif c >= 2 {\n\t\t\tbreak\n\t\t}\n\t\tc++\n\t\tx += c\n\t}"},
+	{ID: "for_condpost", Kind: "stmt", Code: "var c uint64 = 0\n\tfor ; c < 3; c++ {\n\t\tx += c\n\t}"},
+	{ID: "range_kv", Kind: "stmt", Code: "for i, v := range s {\n\t\tx = x + v + uint64(i)\n\t}"},
+	{ID: "range_v", Kind: "stmt", Code: "for _, v := range s {\n\t\tx = x + v*2\n\t}"},
+	{ID: "range_k", Kind: "stmt", Code: "for i := range s {\n\t\tx = x + uint64(i)\n\t}"},
+	{ID: "range_map", Kind: "stmt", Code: "for k, v := range m {\n\t\tx = x + k + v\n\t}"},
+	{ID: "call_stmt", Kind: "stmt", Code: "sideEffect(q, x)\n\tsideEffect0()"},
+	{ID: "closure", Kind: "stmt", Code: "f := func(d uint64) uint64 {\n\t\treturn d + y\n\t}\n\tx = f(x) + f(1)"},
+	{ID: "closure_mutates", Kind: "stmt", Code: "inc := func() {\n\t\tx = x + 1\n\t}\n\tinc()\n\tinc()"},
+	{ID: "multiret", Kind: "stmt", Code: "r1, r2 := two(x)\n\tx = r1 + r2"},
+	{ID: "multiret_blank", Kind: "stmt", Code: "_, r2 := two(x)\n\tx = x + r2"},
+	{ID: "multiassign", Kind: "stmt", Code: "var a1 uint64\n\tvar a2 uint64\n\ta1, a2 = two(x)\n\tx = a1*3 + a2"},
+	{ID: "four_results", Kind: "stmt", Code: "r1, r2, r3, r4 := four(x)\n\tx = r1 + r2*2 + r3*3 + r4*4"},
+	{ID: "append", Kind: "stmt", Code: "var t []uint64\n\tt = append(t, x)\n\tt = append(t, s...)\n\tx = x + uint64(len(t)) + t[0]"},
+	{ID: "subslice", Kind: "stmt", Code: "t := s[1:3]\n\tt[0] = x\n\tx = x + s[1] + uint64(len(t)) + uint64(cap(t))"},
+	{ID: "copy", Kind: "stmt", Code: "t := make([]uint64, 2)\n\tn := copy(t, s)\n\tx = x + uint64(n) + t[0]"},
+	{ID: "struct_lit", Kind: "stmt", Code: "h2 := &H{f: x, b: 3}\n\th3 := H{g: 8}\n\tx = x + h2.f + uint64(h2.b) + uint64(h3.g)"},
+	{ID: "string_ops", Kind: "stmt", Code: "str2 := str + \"de\"\n\tbs2 := []byte(str2)\n\tx = x + uint64(len(str2)) + uint64(bs2[4])\n\tif string(bs2) == str2 {\n\t\tx += 1\n\t}"},
+	{ID: "encode", Kind: "stmt", Code: "eb := make([]byte, 12)\n\tmachine.UInt64Put(eb, x)\n\tmachine.UInt32Put(eb[8:], w)\n\tx = machine.UInt64Get(eb) + uint64(machine.UInt32Get(eb[8:]))"},
+	{ID: "nested_block_fresh", Kind: "stmt", Code: "{\n\t\tfresh1 := x + 1\n\t\tx = fresh1 * 2\n\t}"},
+	{ID: "lock", Kind: "stmt", Code: "mu := new(sync.Mutex)\n\tmu.Lock()\n\tx += 1\n\tmu.Unlock()"},
 }
